@@ -97,7 +97,7 @@ PKG_NAMES_STYLE = ["foo", "Foo", "new_foo", "foo_args", "FooResult", "FooPtr", "
 
 def alphabets(small=False):
     if small == "tiny":
-        return dict(pkg=["foo", "Foo", "new_foo", "FooPtr", "Foo__A"], field=FIELD_NAMES_SMALL, param=PARAM_NAMES_SMALL, fn=FN_NAMES)
+        return dict(pkg=["foo", "Foo", "new_foo", "FooPtr"], field=FIELD_NAMES_SMALL, param=PARAM_NAMES_SMALL, fn=FN_NAMES)
     if small == "style":
         return dict(pkg=PKG_NAMES_STYLE, field=FIELD_NAMES_SMALL, param=PARAM_NAMES_SMALL, fn=FN_NAMES)
     if small == "medium":
